@@ -67,6 +67,17 @@ void one(const char* fmt, const char* type, const char* org, View const& v, Info
             j.num("flen", (long long)bytes.size());
             if (bytes.size() <= 400 && (std::string(fmt) == "bmp" || std::string(fmt) == "pnm" || std::string(fmt) == "tga")) j.arr("file", bytes);
             j.emit();
+            // read the same file into an image of the VIEW's own pixel type (another channel order than the canonical image): same colours
+            if constexpr (!std::is_same<typename View::value_type, typename Img::value_type>::value && !gil::is_bit_aligned<typename View::value_type>::value) {
+                if (dev == 0 && !threw) {
+                    using OwnImg = gil::image<typename View::value_type, false>;
+                    OwnImg own; bool threw2 = false; std::string what2;
+                    try { gil::read_image(path, own, Tag()); } catch (std::exception& e) { threw2 = true; what2 = e.what(); }
+                    J k("RT"); k.str("fmt", fmt).str("type", type).str("org", std::string(org) + "/own-layout-image").str("dev", devname).str("variant", variant).boolean("lossless", lossless).boolean("threw", threw2).str("what", what2.substr(0, 80))
+                        .num("w", v.width()).num("h", v.height()).raw("src", pix_json(v)).num("bw", own.width()).num("bh", own.height()).raw("back", pix_json(gil::const_view(own))).num("flen", (long long)bytes.size());
+                    k.emit();
+                }
+            }
             remove(path.c_str());
         }, 60);
     }
